@@ -401,6 +401,14 @@ def t_partial(tf):
         h.assume(ops.compare('>=', n, 1))
         start0 = h.int('session_start')
         h.assume(ops.equal(ops.arith('%', start0, cnt * 60000), 0))          # aligned session (granted by the statement)
+        # Euclidean-division witnesses (a definitional extension: every start0 / n has them, no input is excluded): with them the
+        # solver needs linear reasoning only to relate `ts % period // 60000` of the code to `(n - 1) % cnt` of the statement;
+        # without them the verdict depended on the solver's random seed (130-180 s or unknown for 45m / 4h with seed 1)
+        wa, wq, wr = h.int('w_periods'), h.int('w_quot'), h.int('w_rem')
+        h.assume(ops.equal(start0, ops.arith('*', cnt * 60000, wa)))
+        h.assume(ops.equal(ops.arith('-', n, 1), ops.arith('+', ops.arith('*', cnt, wq), wr)))
+        h.assume(ops.compare('>=', wr, 0))
+        h.assume(ops.compare('<', wr, cnt))
         q = ops.fresh_qvar('ts')
         h.ctx.s.add(z3.ForAll([q], z3.Implies(z3.And(q >= 0, q < z3num(n)), a1.fn(Sym(q, 'int')).e[0].t == z3num(start0) + 60000 * q)))
         part = Vec(list(a1.fn(ops.arith('-', n, 1)).e))
